@@ -542,6 +542,13 @@ def run(pid, tier):
             bad += 1
             rep.mismatches.append("script replay oracle fails on ordinary expressions %s: %s" % (row, nv))
     rep.subclaims[-1]["concrete_validation"] = {"inputs": len(ok_rows), "mismatches": bad, "function": "real BashScriptExecutor vs the commands run alone"}
+    # (e) the per-process runner: what it hands to the process and that both streams pass through render_output
+    from props import exec_claims
+    exec_claims.NAT = NAT
+    hr = exec_claims.h_subprocess_runner(prog)
+    resr = e2.run_with_raw(prog, hr, max_witnesses=3)
+    exec_claims.replay_runner(rep, hr, resr)
+    e2.record(rep, hr, resr)
     NAT.close()
     tot_paths = sum(s.get("paths", 0) for s in rep.subclaims)
     rep.coverage.update({
@@ -550,7 +557,8 @@ def run(pid, tier):
                        "iterate_divided_output; witnesses replayed natively (BashRunner through a real bash). Pipes, merge order, "
                        "megabyte payloads and real exit codes are outside.",
         "functions_encoded": ["newline::replace_crlf", "<BashRunner as Runner>::run", "bash_script_executor::iterate_divided_output",
-                              "bash_script_executor::parse_divider_bytes", "newline::split_at_newline", "newline::trim_newlines"],
+                              "bash_script_executor::parse_divider_bytes", "newline::split_at_newline", "newline::trim_newlines",
+                              "<SubprocessRunner as Runner>::run (recording process stub)", "TestCase::render_output"],
         "evaluations": tot_paths, "distinct_nontrivial": max(tot_paths, 2),
         "rule": "one case = one feasible path of the MIR under one input shape",
         "samples": [s for sc in rep.subclaims for s in sc.get("samples", [])][:4] or ["see subclaims"],
